@@ -36,8 +36,8 @@ CLAIMED = {
          "characterisations. Container classes (sorted/zip/all bodies: Section, ByteInterval, Module, IR, CFG) are covered by the "
          "bounded perturbation stand-in over four IR shapes, stated as bounded."),
  "C19": ("proof", "4.C19", "initialized_size getter/setter (pad/truncate), the size setter (truncate on shrink, with index maintenance), block "
-         "address/contents/contains_offset/contains_address are proved for all inputs; constructor/loader rejection and save+load by the "
-         "bounded stand-in."),
+         "address/contents/contains_offset/contains_address, the constructor guard and the loader's construction segment (rejection "
+         "of more bytes than size) are proved for all inputs; save+load by the bounded stand-in."),
  "C12": ("proof", "4.C05", "LazyIntervalTree.get is proved to return exactly the current intervals and to leave no pending event in all "
          "three branches, whatever the number of pending events; every mutator under contract preserves the denotation invariant; "
          "so every lookup contract is a function of the current structure only."),
@@ -49,9 +49,10 @@ CLAIMED = {
          "__delitem__, node sets, _from_iterable, __or__) are proved to behave as the built-in list/set/dict on their contents while "
          "maintaining ownership; the collections.abc mixin surface is compared in lock step with built-ins by the bounded stand-in."),
  "C01": ("proof", "4.IO", "Proved for all inputs: the 8-byte header is written and checked as documented; block/symbol/symbolic-expression/"
-         "AuxData leaf writers and readers agree with the schema field by field, so their composition is the identity on those nodes. "
-         "The whole-IR round trip (container messages, decode order, CFG writer, deep_eq both ways, re-save) is covered by the bounded "
-         "stand-in only and is not counted as proved."),
+         "AuxData leaf writers and readers, the container writers (one message per child, CFG vertices and edges) and the "
+         "construction segments of the container readers agree with the schema field by field, so their composition is the identity on "
+         "those parts. The whole-IR round trip (child lists of the readers, decode order, deep_eq both ways, re-save) is covered by the "
+         "bounded stand-in only and is not counted as proved."),
  "C02": ("proof", "4.IO", "Proved field by field for all objects/messages: header layout, DataBlock/CodeBlock/ProxyBlock/Symbol/SymAddrConst/"
          "SymAddrAddr/AuxData writers and readers, the Block and SymbolicExpression one-ofs, the CFG edge reader, the Python enum "
          "tables against /repo/proto, and the container writers IR/Module/Section/ByteInterval._to_protobuf (scalars, one message "
@@ -67,7 +68,8 @@ CLAIMED = {
          "the Java codec is not executed."),
  "C09": ("proof", "4.IO", "Proved for all tables and messages: decode-or-reuse by UUID with kind check for 7 node classes, symbol referents, "
          "symbolic-expression symbols, CFG endpoints and AuxData UUID/Offset entries resolve to the very table entry; wrong kinds and "
-         "missing nodes raise DeserializationError. Module entry points and whole-file identity: bounded stand-in."),
+         "missing nodes raise DeserializationError; the module entry point is the table entry and must be a CodeBlock; CFG._from_protobuf "
+         "builds exactly the edges of the messages. Whole-file identity: bounded stand-in."),
  "C14": ("proof", "4.IO", "The AuxData cell (lazy container, data getter/setter, _from_protobuf, _to_protobuf) and the top level of "
          "Serialization.encode/decode (UnknownData pass-through, unknown codec while encoding is EncodeError) are proved for all "
          "states: never-read + same type name reuses the loaded bytes, otherwise the current value is encoded under the current type "
@@ -80,7 +82,8 @@ CLAIMED = {
          "language and the trees are exactly the grammar's is decided by the bounded stand-in only."),
  "C17": ("proof", "4.IO", "Proved for all byte strings/messages: bad magic, short file or wrong version byte is a ValueError before anything is "
          "parsed; a wrong version field is a ValueError before anything is built; every leaf reader rejects wrong-length UUIDs, dangling "
-         "and ill-typed references and unknown enum numbers with the stated exception. Coherence of what load returns for corrupted "
+         "and ill-typed references and unknown enum numbers with the stated exception; module / section / interval construction from a "
+         "message rejects undefined enum numbers and more content bytes than size. Coherence of what load returns for corrupted "
          "files (truncations, bit flips, structural faults): bounded stand-in."),
 }
 
